@@ -6,7 +6,9 @@ CONSTANTS Offs,        \* cancellation instants in ms after the call started
 Offsets == Offs \cup {-1}     \* -1 = the context is already cancelled when the run is started
 \* "ptrace-ban": ptrace run whose traced calls are all soft-banned by a slow handler (the cancellation often
 \* arrives while the tracee sits in a seccomp stop and the handler is still deciding)
-Runners == {"ptrace", "ptrace-ban", "unshare", "container", "container-sa"}
+\* "ptrace-trap": the same with a handler that answers at once (the tracee re-enters a seccomp stop every few
+\* microseconds: the cancellation's SIGKILL lands in every phase of the tracer's wait / read-registers / resume loop)
+Runners == {"ptrace", "ptrace-ban", "ptrace-trap", "unshare", "container", "container-sa"}
 Cases ==
   \* a sleeping program: only the cancellation can end the run
        { [runner |-> r, prog |-> "sleep", at |-> a, nfiles |-> n, destroy |-> FALSE, frozen |-> FALSE, rep |-> k] :
@@ -22,6 +24,8 @@ Cases ==
   \* many cancellations spread over a run that is almost always inside a trap
   \cup { [runner |-> "ptrace-ban", prog |-> "sleep", at |-> a, nfiles |-> 3, destroy |-> FALSE, frozen |-> FALSE, rep |-> 200 + k] :
             a \in {5, 7, 11, 13, 17, 19, 23, 29}, k \in 1..(2 * Reps) }
+  \cup { [runner |-> "ptrace-trap", prog |-> "sleep", at |-> a, nfiles |-> 3, destroy |-> FALSE, frozen |-> FALSE, rep |-> 400 + k] :
+            a \in {5, 6, 7, 8, 9, 10, 11, 13}, k \in 1..(3 * Reps) }
   \* Destroy while a call is in flight (container only)
   \cup { [runner |-> r, prog |-> p, at |-> a, nfiles |-> 3, destroy |-> TRUE, frozen |-> FALSE, rep |-> k] :
             r \in {"container", "container-sa"}, p \in {"sleep", "quick", "open", "ping"}, a \in Offsets \ {-1}, k \in 1..Reps }
